@@ -566,6 +566,22 @@ def directed_runs(ctx):
             if exc is not None:
                 ctx.fail("%s:raises:connected" % fn, "%s: %s" % (type(exc).__name__, exc), case); continue
             oracle_connected(ctx, fn, G, dim, E, fb, case)
+    # symmetric positive-weight graphs WITH self-loops (kernel / affinity matrices): the degree and the Laplacian include the diagonal
+    for gi, (n, dim) in enumerate(((12, 2), (18, 1), (25, 3), (15, 2))):
+        rs_ = np.random.RandomState(400 + gi)
+        W = rs_.uniform(0.05, 1.0, size=(n, n)) * (rs_.random_sample((n, n)) < 0.5)
+        W = np.triu(W, 1)
+        for a_ in range(n - 1):
+            if W[a_, a_ + 1] == 0: W[a_, a_ + 1] = rs_.uniform(0.05, 1.0)
+        A = W + W.T + np.diag(rs_.uniform(0.2, 3.0, size=n) * (rs_.random_sample(n) < 0.8))
+        G = sp.csr_matrix(A)
+        for fn in ("spectral_layout", "tswspectral_layout"):
+            case = graph_case(G, dim, fn=fn, kind="self_loops", seed=0, kwargs={})
+            E, fb, exc = call_layout(fn, None, G, dim, 0)
+            ctx.tag(("directed", "loops", gi, fn), ["directed_self_loops"])
+            if exc is not None:
+                ctx.fail("%s:raises:connected" % fn, "%s: %s" % (type(exc).__name__, exc), case); continue
+            oracle_connected(ctx, fn, G, dim, E, fb, case)
     deg = dict(runs=0, multiplicity_missed=0)
     for n in (9, 10, 12, 20):
         G = unit_ring(n)
